@@ -60,7 +60,8 @@ def main():
     claimed = []
     for pid in sorted(TEXT):
         have = os.path.exists(os.path.join(VERIF, f"tools/props/{pid.lower()}.py")) and \
-            os.path.exists(os.path.join(VERIF, f"lean/QtyModel/Props/{pid}.lean"))
+            os.path.exists(os.path.join(VERIF, f"lean/QtyModel/Props/{pid}.lean")) and \
+            "\ntheorem " in open(os.path.join(VERIF, f"lean/QtyModel/Props/{pid}.lean"), encoding="utf-8").read()
         text, ref, label = TEXT[pid]
         if not have:
             na.append(dict(property_id=pid, reason="check not built yet in this round (planned: DESIGN.md " + ref + ")"))
